@@ -29,6 +29,7 @@ func main() {
 	}
 	switch prop {
 	case "C01", "C17", "C02":
+		withSubMs = prop != "C02"
 		enumSer(R, prop, *fBudget, *fValdev, *fEntries, true)
 		enumGenerated(R, prop)
 	case "C18":
@@ -47,6 +48,7 @@ func main() {
 func replay(R *vlib.Out, prop string) {
 	switch prop {
 	case "C01", "C17", "C02":
+		withSubMs = prop != "C02"
 		var rp serReplay
 		vlib.LoadReplay(&rp)
 		if rp.T == nil {
